@@ -40,6 +40,9 @@ inductive Call where
   | bufferFree (h : Nat)
   | bundleFree (h : Nat)
   | metadataFree (h : Nat)
+  | payloadNull                    -- `bundle_payload(NULL)`: a Buffer struct with null data
+  | bufferFreeNull                 -- `buffer_free(NULL)`: nothing happens
+  | bundleFreeNull                 -- `bundle_free(NULL)`: nothing happens
   deriving Repr
 
 inductive Out where
@@ -124,6 +127,9 @@ def step (pinned : Bool) (s : Ledger) : Call → Ledger × Out
     (match lookup h s.objs with
      | some (.mdata a) => (release s h (if pinned then a.drop 1 else a), .unit)
      | _ => (s, .misuse))
+  | .payloadNull => let (s', k) := addObj s (Obj.buffer none) 1; (s', .buffer k none)
+  | .bufferFreeNull => (s, .unit)
+  | .bundleFreeNull => (s, .unit)
 
 def run (pinned : Bool) : List Call → Ledger → Ledger × List Out
   | [], s => (s, [])
